@@ -21,9 +21,11 @@ Tree == << Nd(1, 0, "dir", "d1", ""), Nd(2, 1, "file", "f1.txt", "one\ntwo\n"), 
            \* an image whose dimensions are read from its content, and a directory that is named like one
            Nd(10, 0, "file", "p.svg", "<svg xmlns=\"http://www.w3.org/2000/svg\" width=\"5\" height=\"5\"></svg>\n"), Nd(11, 0, "dir", "dd.svg", ""),
            \* links that lead nowhere are entries like any other: listing them is not a failure
-           Nd(12, 0, "symlink", "dang", "") @@ [target |-> -1, tstyle |-> "rel"], Nd(13, 3, "symlink", "dang2", "") @@ [target |-> -1, tstyle |-> "abs"] >>
+           Nd(12, 0, "symlink", "dang", "") @@ [target |-> -1, tstyle |-> "rel"], Nd(13, 3, "symlink", "dang2", "") @@ [target |-> -1, tstyle |-> "abs"],
+           \* files named like archives that are none (path "archived": the search is told to look into archives): entries like any other
+           Nd(14, 1, "file", "x.zip", "not an archive\n"), Nd(15, 0, "file", "e.jar", "") >>
 Dirs == {1, 3, 5, 8}
-Files == {2, 4, 6, 7, 9, 10}
+Files == {2, 4, 6, 7, 9, 10, 14}
 (* mode 0 makes a directory unlistable / a file unreadable for the unprivileged user the search runs as *)
 W(bd, bf) == [nodes |-> [i \in 1 .. Len(Tree) |-> IF i \in bd \cup bf THEN [Tree[i] EXCEPT !.mode = 0] ELSE Tree[i]]]
 Subsets2(S) == { {} } \cup { {a} : a \in S } \cup { {a, b} : a \in S, b \in S }
@@ -40,7 +42,7 @@ ChooseDirs == /\ phase = "start" /\ kind' = "dirs" /\ baddirs' \in Subsets2(Dirs
 ChooseNotDir == /\ phase = "start" /\ kind' \in {"notdir", "missing", "rxfile", "rxmissing"} /\ baddirs' = {} /\ badfiles' = {}
                 /\ path' \in {"streamed", "ordered"} /\ dfs' \in BOOLEAN /\ fmt' = "list" /\ k' = 0 /\ phase' = "done"
 ChooseFiles == /\ phase = "start" /\ kind' = "files" /\ badfiles' \in Subsets2(Files) /\ baddirs' = {}
-               /\ path' \in {"metadata", "content", "aggregate", "media"} /\ dfs' = FALSE /\ fmt' = "list" /\ k' = 0 /\ phase' = "done"
+               /\ path' \in {"metadata", "content", "aggregate", "media", "archived"} /\ dfs' = FALSE /\ fmt' = "list" /\ k' = 0 /\ phase' = "done"
 ChoosePipe == /\ phase = "start" /\ kind' = "pipe" /\ baddirs' = {} /\ badfiles' = {}
               /\ fmt' \in {"tabs", "lines", "list", "csv", "json", "html"}
               /\ path' \in {"streamed", "ordered", "aggregate", "grouped"}
@@ -55,6 +57,7 @@ DirQuery == CASE path = "streamed" -> "select inode, path from '.'" \o Mode \o "
 FileQuery == CASE path = "metadata" -> "select path, size, mode, hardlinks from '.' into list"
                [] path = "content" -> "select path, line_count, sha1, is_shebang from '.' into list"
                [] path = "aggregate" -> "select count(*), sum(size), sum(line_count), max(size), min(line_count), max(line_count) from '.' into list"
+               [] path = "archived" -> "select path, size, mode, hardlinks from '.' archives into list"
                [] path = "media" -> "select path, width, height, line_count from '.' into list"
 PipeQuery == (CASE path = "streamed" -> "select name, size, path from '.'"
                 [] path = "ordered" -> "select name, size, path from '.' order by name"
